@@ -21,6 +21,8 @@ pub enum Step {
     Show,
     Delete,
     OutDeleteAll,
+    /// `out delete` without --all: reports the size, removes nothing - the checkpoint stays
+    OutDeletePlain,
     Analyze,
     Run,
 }
@@ -50,6 +52,7 @@ pub fn strategy() -> impl Strategy<Value = Case> {
         4 => Just(Step::Show),
         2 => Just(Step::Delete),
         1 => Just(Step::OutDeleteAll),
+        2 => Just(Step::OutDeletePlain),
         3 => Just(Step::Analyze),
         2 => Just(Step::Run),
     ];
@@ -233,6 +236,16 @@ pub fn check(case: &Case, w: usize) -> CheckResult {
                     classes.insert("checkpoint delete");
                 }
                 model = None;
+            }
+            Step::OutDeletePlain => {
+                if h.env.path("monorail-out").exists() {
+                    let o = h.env.mr(&["out", "delete"]);
+                    if !o.ok() {
+                        return viol_obs("c19.outdelete.failed", format!("step {}: out delete failed", si), o.brief());
+                    }
+                    classes.insert("out delete (without --all)");
+                    // the model stays as it is: the next `show` must still return the last update
+                }
             }
             Step::OutDeleteAll => {
                 let existed = h.env.path("monorail-out").exists();
